@@ -4,10 +4,11 @@ import ParanoidModel.Driver.Ecdsa
 import ParanoidModel.Driver.ClosedForm
 import ParanoidModel.Driver.Rng
 import ParanoidModel.Driver.BM
+import ParanoidModel.Driver.BitSeq
 open Paranoid.Driver
 
 /-- all dispatchers, tried in order. -/
-def dispatchers : List Dispatcher := [basicOps, ntheoryOps, factoringOps, rsaCheckOps, ecdsaOps, closedFormOps, rngOps, bmOps]
+def dispatchers : List Dispatcher := [basicOps, ntheoryOps, factoringOps, rsaCheckOps, ecdsaOps, closedFormOps, rngOps, bmOps, bitseqOps]
 
 def respond (regs : List (String × String)) (line : String) : String :=
   let toks := ((line.trimAscii.toString.splitOn " ").filter (· ≠ "")).map fun t =>
